@@ -116,7 +116,12 @@ def _judge_graph(ctx, exe, wd, job, cfg, graph, info, clause, stats, samples, te
                              ",".join(sorted({k for k, m, a, o in ins if k not in ("next", "tick")})) or "no perturbation",
                              replay["selections"][-12:], sig0), replay)
         else:
-            raise RuntimeError("counterexample on %s did not reproduce in a fresh process (state restore not faithful?)" % job.name)
+            # the path exists in G but not in a fresh process: the state restore (translation of poll orders) is not
+            # faithful for this tree.  Nothing is reported from this graph (rule: a rejection must reproduce); the exact
+            # parts (re-add graphs in forked children, linear random executions) still decide; see the end of run().
+            stats["unfaithful"].append(job.name)
+            ctx.notes.append("graph %s: counterexample %s did not reproduce in a fresh process; graph discarded" % (job.name, key))
+            ctx.log("   graph %s: counterexample did not reproduce in a fresh process - graph discarded" % job.name)
 
 
 def _run_job(ctx, exe, wd, job, stats, samples):
@@ -149,7 +154,7 @@ def run(ctx):
     ctx.level = "model_checking"
     wd = recs.workdir("C17")   # per process, removed at exit
     exe = build.build("c17_poll", ["c17_poll.cpp"], ["ebus", "utils_noclock"])
-    stats = {"states": 0, "transitions": 0, "graphs": {}, "traces": 0, "fidelity_nodes": 0}
+    stats = {"states": 0, "transitions": 0, "graphs": {}, "traces": 0, "fidelity_nodes": 0, "unfaithful": []}
     samples = []
     design = {}
 
@@ -215,6 +220,8 @@ def run(ctx):
             first = recs.read_ndjson(lin)[:40]
             samples.append({"random": name, "prios": prios, "first_selections": [n["succ"][0][3] for n in first if n["succ"] and n["succ"][0][0] == 1]})
 
+    if stats["unfaithful"] and not any(":random-" in v["key"] for v in ctx.violations):
+        raise RuntimeError("state restore not faithful on %s and the exact parts found nothing: no verdict" % stats["unfaithful"])
     ctx.notes.append({"design_S_implies_P": design})
     ctx.coverage = {
         "states": stats["states"], "transitions": stats["transitions"],
